@@ -361,6 +361,19 @@ func expectTwo(c *call, mut int) want {
 		if len(found) == 0 {
 			return exact("nil")
 		}
+		if n == 0 && c.fromEnd && mut == mutNone {
+			// an empty pattern matches everywhere; with :from-end the rightmost match is at end2, but
+			// implementations that answer start2 exist: both are accepted
+			lo, hi := strconv.Itoa(s2), strconv.Itoa(e2)
+			w := want{desc: hi + " (or " + lo + ")"}
+			w.check = func(got string, _ *decoded) string {
+				if got == lo || got == hi {
+					return ""
+				}
+				return "neither start2 nor end2"
+			}
+			return w
+		}
 		if c.fromEnd && mut != mutSearchFromEndLeft {
 			return exact(strconv.Itoa(found[len(found)-1]))
 		}
